@@ -8,7 +8,7 @@ static void set_values(int pat)
 {
     for (int i = 0; i < 8; i++) B8[i] = (uint8_t)(pat ? 0xF0 - 7 * i : 0x31 + i);
     for (int i = 0; i < 4; i++) W16[i] = (uint16_t)(pat ? 0xFE01 - 0x111 * i : 0x4241 + 0x202 * i);
-    A32 = V32[pat][0]; P32 = V32[pat][1];
+    A32 = V32[pat][0]; P32 = V32[pat][1]; H8 = (uint8_t)(pat ? 0x9C : 0x2E);
 }
 
 /* comp[k] in {1,2,3,4}; objects are taken in order from the pools */
@@ -20,7 +20,7 @@ static void one(const int *comp, int n, int pat)
     NC.n_tpdo = 1; NC.tpdo[0].present = 1; NC.tpdo[0].cobid = 0x40000181u; NC.tpdo[0].type = 254; NC.tpdo[0].nmap = (uint8_t)n;
     for (int k = 0; k < n; k++) {
         int sz = comp[k]; snprintf(cs + strlen(cs), sizeof cs - strlen(cs), "%d", sz);
-        if (sz == 1) NC.tpdo[0].map[k] = NC_MAP(0x2113, 1 + i8++, 8);
+        if (sz == 1) { NC.tpdo[0].map[k] = i8 == 0 ? NC_MAP(0xF100, 0, 8) : NC_MAP(0x2113, i8, 8); i8++; }      /* the first 8-bit object lives at F100h, the others at 2113h:1..7 */
         else if (sz == 2) NC.tpdo[0].map[k] = NC_MAP(0x2114, 1 + i16++, 16);
         else { NC.tpdo[0].map[k] = i32 == 0 ? NC_MAP(0x2102, 0, sz * 8) : NC_MAP(0x2112, 0, sz * 8); i32++; }
     }
@@ -29,7 +29,8 @@ static void one(const int *comp, int n, int pat)
     set_values(pat);
     i8 = i16 = i32 = 0;
     for (int k = 0; k < n; k++) {
-        int sz = comp[k]; uint32_t v = sz == 1 ? B8[i8++] : sz == 2 ? W16[i16++] : (i32++ == 0 ? A32 : P32);
+        int sz = comp[k]; uint32_t v = sz == 1 ? (i8 == 0 ? H8 : B8[i8 - 1]) : sz == 2 ? W16[i16++] : (i32++ == 0 ? A32 : P32);
+        if (sz == 1) i8++;
         for (int b = 0; b < sz; b++) want[wl++] = (uint8_t)(v >> (8 * b));
     }
     w_obs_clear();
@@ -59,8 +60,52 @@ static void rec(int *comp, int n, int sum)
     }
 }
 
-static void run_cfg(int cfg, int tier) { int comp[8]; (void)cfg; (void)tier; rec(comp, 0, 0); }
-static void run_case(const int *c, int n) { if (n < 4) return; mc_case_v(c + 1, n - 1); one(c + 3, c[1], c[2]); }
-static const char *cfg_name(int c) { (void)c; return "all compositions"; }
-static const mc_enum E = { "C12", "c12map", 1, cfg_name, run_cfg, run_case };
+/* ---- cfg 1: "triggered by a changed asynchronous object".  The mapped object is an asynchronous 8-, 16- or 32-bit entry that keeps its value in a variable
+ * or directly in the dictionary entry; for every ordered pair (old, new) of a value list that varies each byte separately the object is written with old,
+ * then with new - through the dictionary API or by SDO: the event-driven TPDO must be sent exactly when new differs from old, carrying new ---- */
+static const uint32_t VAL[] = { 0, 1, 5, 0x34, 0xFF, 0x100, 0x105, 0x1234, 0xFF00, 0xFFFF, 0x10000, 0x10005, 0x345678, 0x1000000, 0x12345678, 0xFF000000, 0xFFFFFFFF };
+#define NVAL ((int)(sizeof VAL / sizeof VAL[0]))
+static uint8_t R8; static uint16_t R16; static uint32_t R32;
+static void async_case(int w, int direct, int via_sdo, int io, int in)
+{
+    uint32_t mask = w == 1 ? 0xFFu : w == 2 ? 0xFFFFu : 0xFFFFFFFFu, old = VAL[io] & mask, nw = VAL[in] & mask; char smp[160]; int n;
+    const CO_OBJ_TYPE *t = w == 1 ? CO_TUNSIGNED8 : w == 2 ? CO_TUNSIGNED16 : CO_TUNSIGNED32;
+    w_regions_clear();
+    nc_defaults();
+    NC.n_tpdo = 1; NC.tpdo[0].present = 1; NC.tpdo[0].cobid = 0x40000181u; NC.tpdo[0].type = 254; NC.tpdo[0].nmap = 1; NC.tpdo[0].map[0] = NC_MAP(0x2140, 0, w * 8);
+    NC.operational = 1;
+    nc_prepare();
+    {
+        OdB b; b.root = OD; b.cap = NC_OD_MAX; b.used = 0; while (b.used < NC_OD_MAX && OD[b.used].Key) b.used++;
+        R8 = 0x77; R16 = 0x7777; R32 = 0x77777777u;
+        if (direct) od_add(&b, CO_KEY(0x2140, 0, CO_OBJ_D_____ | CO_OBJ___APRW), t, (CO_DATA)(uintptr_t)(0x77777777u & mask));
+        else od_add(&b, CO_KEY(0x2140, 0, CO_OBJ___APRW), t, w == 1 ? (CO_DATA)&R8 : w == 2 ? (CO_DATA)&R16 : (CO_DATA)&R32);
+        W_REG(R8); W_REG(R16); W_REG(R32);
+    }
+    nc_start();
+    for (int k = 0; k < 2; k++) {
+        uint32_t v = k ? nw : old;
+        w_obs_clear();
+        if (via_sdo) { if (nc_sdo_write(0x2140, 0, v, w) != 0) { mc_fail("tpdo-async-write", "SDO write of %X to the %d-bit object refused", v, w * 8); break; } }
+        else { CO_ERR e = w == 1 ? CODictWrByte(&Node.Dict, CO_DEV(0x2140, 0), (uint8_t)v) : w == 2 ? CODictWrWord(&Node.Dict, CO_DEV(0x2140, 0), (uint16_t)v) : CODictWrLong(&Node.Dict, CO_DEV(0x2140, 0), v);
+               if (e != CO_ERR_NONE) { mc_fail("tpdo-async-write", "API write of %X to the %d-bit object fails with %d", v, w * 8, (int)e); break; } }
+        mc_steps++;
+    }
+    n = nc_count_tx(0x181);
+    if (n != (old != nw ? 1 : 0)) mc_fail(n ? "tpdo-unexpected" : "tpdo-missing", "%d-bit asynchronous object (%s storage) written %s with %X while it holds %X: %d TPDO frame(s), expected %d", w * 8, direct ? "direct" : "referenced", via_sdo ? "by SDO" : "through the API", nw, old, n, old != nw ? 1 : 0);
+    else if (n) { const WFrame *f = nc_find_tx(0x181, 0); uint32_t got = 0; for (int b = 0; b < w; b++) got |= (uint32_t)f->d[b] << (8 * b); if (f->dlc != w || got != nw) mc_fail("tpdo-map-data", "TPDO after the change to %X carries %X (DLC %d)", nw, got, f->dlc); }
+    snprintf(smp, sizeof smp, "%d-bit asynchronous object, %s storage, %s: %X -> %X gives %d frame(s)", w * 8, direct ? "direct" : "referenced", via_sdo ? "SDO" : "API", old, nw, n);
+    mc_case_end(((uint64_t)n << 60) ^ ((uint64_t)w << 56) ^ ((uint64_t)direct << 55) ^ (old == nw), 1, smp);
+}
+static void run_async(void)
+{
+    for (int w = 1; w <= 4; w *= 2) for (int direct = 0; direct < 2; direct++) for (int via = 0; via < 2; via++) for (int io = 0; io < NVAL; io++) for (int in = 0; in < NVAL; in++) {
+        mc_case(6, 1, w, direct, via, io, in);
+        async_case(w, direct, via, io, in);
+    }
+}
+static void run_cfg(int cfg, int tier) { int comp[8]; (void)tier; if (cfg == 1) { run_async(); return; } rec(comp, 0, 0); }
+static void run_case(const int *c, int n) { if (c[0] == 1) { if (n < 7) return; mc_case_v(c + 1, n - 1); async_case(c[2], c[3], c[4], c[5], c[6]); return; } if (n < 4) return; mc_case_v(c + 1, n - 1); one(c + 3, c[1], c[2]); }
+static const char *cfg_name(int c) { return c ? "changed asynchronous objects: widths, storage classes, value pairs" : "all compositions"; }
+static const mc_enum E = { "C12", "c12map", 2, cfg_name, run_cfg, run_case };
 int main(int argc, char **argv) { return mc_enum_main(argc, argv, &E); }
